@@ -13,8 +13,6 @@ import (
 	"github.com/prometheus/prometheus/util/annotations"
 
 	"github.com/thanos-io/thanos/pkg/component"
-	"github.com/thanos-io/thanos/pkg/filter"
-	storecache "github.com/thanos-io/thanos/pkg/store/cache"
 	"github.com/thanos-io/thanos/pkg/store/storepb"
 )
 
@@ -178,17 +176,15 @@ func verifC08Setup() *verifC08Case {
 		}
 		c.ms = append(c.ms, m)
 	}
-	c.st = &TSDBStore{
-		logger:             log.NewNopLogger(),
-		db:                 c.db,
-		component:          component.Receive,
-		extLsetAsLabelSets: []labels.Labels{c.ext},
-		maxBytesPerFrame:   RemoteReadFrameLimit,
-		storeFilter:        filter.AllowAllStoreFilter{},
-		matcherCache:       storecache.NoopMatchersCache,
-		close:              func() {},
+	// the store is built through its constructor; external labels either given at construction or installed
+	// later with SetExtLset (as the receiver does on a hashring / label change)
+	if verifIntRange("extSetLater", 0, 1) == 1 {
+		c.st = NewTSDBStore(log.NewNopLogger(), c.db, component.Receive, labels.FromStrings("z", "old"))
+		c.st.SetExtLset(c.ext)
+		verifReach("ext-labels-replaced")
+	} else {
+		c.st = NewTSDBStore(log.NewNopLogger(), c.db, component.Receive, c.ext)
 	}
-	c.st.buffers.New = func() any { b := make([]byte, 0, 64); return &b }
 	if verifIntRange("smallFrames", 0, 1) == 1 {
 		c.st.maxBytesPerFrame = 1 // every chunk in its own frame
 	}
